@@ -258,12 +258,39 @@ def rule_delivery(report, prog):
                  '%s writes self.addr (`%s`): the service access point can no longer find the socket to release its address'
                  % (bad_[0][0].qname if bad_ else '', norm(bad_[0][1]) if bad_ else ''))
     # service discovery answers come from the local name table; results are stored under the requested name
+    # (enqueue() folded by the checker's own evaluator for a received SNL PDU with answers and requests, the tables it works on owned
+    # by the fold: answers are stored under the name the TID was sent for, requests are answered from the local table with their TID)
     e = prog.func(SD + '.enqueue')
-    report.check(bool(find(e.node, 'sap = self.llc.snl[name]')) and bool(find(e.node, 'self.sdres.append((tid, sap))')),
-                 'C17-R5', key(e.qname, 'SDRES answers the requested name from llc.snl with the request TID'), e.loc(),
-                 'service discovery answer construction changed')
-    report.check(bool(find(e.node, 'name = self.sent[tid]')) and bool(find(e.node, 'self.snl[name] = sap')), 'C17-R5',
-                 key(e.qname, 'SDRES is matched to the request by TID'), e.loc(), 'service discovery result matching changed')
+    from ..q import fold_block, FoldObject, NotConst
+    import collections
+
+    class SNL(FoldObject):
+        def __init__(self, sdres, sdreq):
+            self.sdres, self.sdreq = sdres, sdreq
+
+    class Cond(FoldObject):
+        def notify_all(self):
+            pass
+
+        def notify(self):
+            pass
+    body = [st for st in e.node.body if not (isinstance(st, ast.Expr) and isinstance(st.value, ast.Constant))]
+    env = {'rcvd_pdu': SNL([(5, 0x11), (6, 0x45), (9, 0x20)], [(1, 'urn:nfc:sn:snep'), (2, 'urn:nfc:sn:none')]),
+           'pdu.ServiceNameLookup': SNL, 'self.snl': {'urn:nfc:sn:sdp': 1}, 'self.sent': {5: 'urn:nfc:sn:a', 6: 'urn:nfc:sn:b'},
+           'self.tids': [], 'self.resp': Cond(), 'self.llc.snl': {'urn:nfc:sn:sdp': 1, 'urn:nfc:sn:snep': 4},
+           'self.sdres': collections.deque(), 'self.sdreq': collections.deque(), 'self.llc.lock': None, 'isinstance': isinstance}
+    why = None
+    try:
+        fold_block(body, env)
+    except (NotConst, KeyError, IndexError, TypeError, ValueError) as x:
+        why = 'enqueue() cannot be folded: %s: %s' % (type(x).__name__, x)
+    ans = list(env['self.sdres'])
+    report.check(why is None and ans == [(1, 4), (2, 0)], 'C17-R5', key(e.qname, 'SDRES answers the requested name from llc.snl with the request TID'), e.loc(),
+                 'service discovery answer construction changed: %s' % (why or 'requests (1, snep) (2, unknown) answered with %r' % (ans,)))
+    got = {k: v for k, v in env['self.snl'].items() if k != 'urn:nfc:sn:sdp'}
+    report.check(why is None and got == {'urn:nfc:sn:a': 0x11, 'urn:nfc:sn:b': 1} and sorted(env['self.tids']) == [5, 6], 'C17-R5',
+                 key(e.qname, 'SDRES is matched to the request by TID'), e.loc(),
+                 'service discovery result matching changed: %s' % (why or 'answers for TID 5, 6 (and the unknown 9) stored as %r, TIDs released %r' % (got, env['self.tids'])))
     d = prog.func(SD + '.dequeue')
     report.check(bool(find(d.node, 'self.sent[tid] = name')), 'C17-R5', key(d.qname, 'request TID remembered when sent'), d.loc(),
                  'sent TID bookkeeping changed')
